@@ -90,7 +90,7 @@ def _strategy(draw):
         a["asset2_time_already_running"] = draw(st.sampled_from([0, 1, 3])) * cx.dt0
         a["time_back"] = draw(st.sampled_from([1, 2])) * cx.dt0
     # numpy date arrays of coarser resolution than nanoseconds (minutes always represent the grid points)
-    u64 = draw(st.sampled_from([None, None, None, "ns", "us", "s", "m"]))
+    u64 = draw(st.sampled_from([None, None, "ns", "us", "s", "m"]))
     if u64:
         def walk(x):
             if isinstance(x, dict):
